@@ -7,7 +7,7 @@ From V.model Require Import Base RelLex RelParse RelAcc RelGrammar.
 From V.proofs Require Import BaseP RelLexP RelParseP RelGrammarLexP.
 Set Default Timeout 60.
 
-Transparent bump skip_ws error expect in_node out_of_fuel version_text.
+Transparent bump skip_ws error expect in_node out_of_fuel version_text version_colons.
 
 (* ---- basic moves on explicit states ---- *)
 Definition hd_kind (ts : list rtoken) : option rkind := match ts with [] => None | (k, _) :: _ => Some k end.
@@ -102,6 +102,12 @@ Qed.
 Lemma nowsk_cons k s r : is_ws_kind k = false -> nowsk ((k, s) :: r).
 Proof. intros H. exact H. Qed.
 
+Lemma elems_app a b : elems (a ++ b) = elems a ++ elems b.
+Proof. apply map_app. Qed.
+
+Lemma expect_hit_ident s r out n fl : expect IDENT (mk_pst ((IDENT, s) :: r) out n fl) = mk_pst r (out ++ [Tok IDENT s]) n fl.
+Proof. reflexivity. Qed.
+
 (* ---- ( op version ) ---- *)
 Lemma bump_constraint_stop w s r :
   bump_constraint (ws_toks w ++ (IDENT, s) :: r) = ([], ws_toks w ++ (IDENT, s) :: r).
@@ -118,27 +124,47 @@ Proof.
   destruct o; cbn [vop_toks app bump_constraint]; rewrite bump_constraint_stop; reflexivity.
 Qed.
 
+Definition colon_toks (ps : list str) : list rtoken := flat_map (fun p => [(COLON, [58%N]); (IDENT, p)]) ps.
+Definition vhead (v : vclause) : str := match v_epoch v with Some e => e | None => v_ver v end.
+Definition vtail (v : vclause) : list str := match v_epoch v with Some _ => v_ver v :: v_more v | None => v_more v end.
+
+Lemma vtext_toks_shape v : vtext_toks v = (IDENT, vhead v) :: colon_toks (vtail v).
+Proof. unfold vtext_toks, vhead, vtail, colon_toks. destruct (v_epoch v); reflexivity. Qed.
+
+Lemma version_colons_pieces ps : forall fuel w x r out n fl, length ps <= fuel ->
+  version_colons fuel (mk_pst (colon_toks ps ++ ws_toks w ++ (R_PARENS, x) :: r) out n fl) =
+  mk_pst (ws_toks w ++ (R_PARENS, x) :: r) (out ++ elems (colon_toks ps)) n fl.
+Proof.
+  induction ps as [|p ps IH]; intros fuel w x r out n fl Hf.
+  - cbn [colon_toks flat_map app elems map]. rewrite app_nil_r.
+    destruct fuel; cbn [version_colons]; rewrite cur_is_ws_false; reflexivity.
+  - destruct fuel as [|f]; [cbn in Hf; lia|]. cbn [colon_toks flat_map app version_colons].
+    rewrite cur_is_eq. cbn [hd_kind rkind_eqb rkind_code N.eqb Pos.eqb]. rewrite bump_cons, expect_hit_ident.
+    fold (colon_toks ps). rewrite IH by (cbn in Hf; lia).
+    change (elems ((COLON, [58%N]) :: (IDENT, p) :: colon_toks ps)) with (Tok COLON [58%N] :: Tok IDENT p :: elems (colon_toks ps)).
+    rewrite <- !app_assoc. reflexivity.
+Qed.
+
 Lemma version_text_vtext v w x r out n fl :
   version_text (mk_pst (vtext_toks v ++ ws_toks w ++ (R_PARENS, x) :: r) out n fl) =
   mk_pst (ws_toks w ++ (R_PARENS, x) :: r) (out ++ elems (vtext_toks v)) n fl.
 Proof.
-  unfold version_text, vtext_toks. destruct (v_epoch v) as [e|]; cbn [app].
-  - rewrite cur_is_eq. cbn [hd_kind rkind_eqb rkind_code N.eqb]. rewrite bump_cons.
-    rewrite cur_is_eq. cbn [hd_kind rkind_eqb rkind_code N.eqb Pos.eqb]. rewrite bump_cons.
-    unfold expect. rewrite cur_is_eq. cbn [hd_kind rkind_eqb rkind_code N.eqb]. rewrite bump_cons.
-    rewrite <- !app_assoc. reflexivity.
-  - rewrite cur_is_eq. cbn [hd_kind rkind_eqb rkind_code N.eqb]. rewrite bump_cons.
-    rewrite cur_is_ws_false; [reflexivity|reflexivity|reflexivity].
+  rewrite vtext_toks_shape. unfold version_text. cbn [app].
+  rewrite cur_is_eq. cbn [hd_kind rkind_eqb rkind_code N.eqb]. cbv zeta. rewrite bump_cons.
+  rewrite version_colons_pieces.
+  - cbn [elems map tk fst snd]. rewrite <- app_assoc. reflexivity.
+  - unfold loop_fuel. cbn [toks]. rewrite app_length. unfold colon_toks.
+    clear. induction (vtail v) as [|p ps IH]; cbn [flat_map length app]; lia.
 Qed.
 
 Lemma nowsk_vop o x : nowsk (vop_toks o ++ x).
 Proof. destruct o; reflexivity. Qed.
 
 Lemma nowsk_vtext v x : nowsk (vtext_toks v ++ x).
-Proof. unfold vtext_toks. destruct (v_epoch v); reflexivity. Qed.
+Proof. rewrite vtext_toks_shape. reflexivity. Qed.
 
 Lemma hd_vtext v x : exists s r, vtext_toks v ++ x = (IDENT, s) :: r.
-Proof. unfold vtext_toks. destruct (v_epoch v) as [e|]; cbn [app]; eauto. Qed.
+Proof. rewrite vtext_toks_shape. cbn [app]. eauto. Qed.
 
 Lemma rel_version_hit w0 v rest out n fl :
   rel_version (mk_pst (ws_toks w0 ++ vbody_toks v ++ rest) out n fl) =
@@ -165,8 +191,6 @@ Proof.
 Qed.
 
 (* ---- [ arch ... ] ---- *)
-Lemma elems_app a b : elems (a ++ b) = elems a ++ elems b.
-Proof. apply map_app. Qed.
 
 Lemma nowsk_neg b s x : nowsk (neg_toks b ++ (IDENT, s) :: x).
 Proof. destruct b; reflexivity. Qed.
